@@ -40,5 +40,25 @@ for i in [f"C{n:02d}" for n in range(1, 21)]:
         nxt = re.search(r"^(### C\d\d |## 5\. )", s[m.end():], re.M)
         pos = m.end() + nxt.start()
         s = s[:pos] + b + "\n\n" + s[pos:]
+# section 8: cost table from the evidence files
+rows = ["| id | level | quick: cases / states·transitions·traces, wall | thorough: cases / states·transitions·traces, wall |", "|---|---|---|---|"]
+def cell(path):
+    if not os.path.exists(path):
+        return "—"
+    e = json.load(open(path)); c = e["coverage"]
+    if e["level"] == "model_checking":
+        return f"{c.get('states')} states · {c.get('transitions')} transitions · {c.get('traces_validated_against_impl')} traces, {e['wall_s']:.1f} s"
+    return f"{c['evaluations']} cases ({c['distinct_nontrivial']} non-trivial), {e['wall_s']:.1f} s"
+for i in [f"C{n:02d}" for n in range(1, 21)]:
+    q = f"{ROOT}/evidence/{i}.json"
+    lvl = json.load(open(q))["level"] if os.path.exists(q) else "?"
+    rows.append(f"| {i} | {lvl} | {cell(q)} | {cell(f'{ROOT}/evidence-thorough/{i}.json')} |")
+tb = "<!-- cost-table -->\n" + "\n".join(rows) + "\n<!-- /cost-table -->"
+if "<!-- cost-table -->" in s:
+    s = re.sub(r"<!-- cost-table -->.*?<!-- /cost-table -->", lambda m: tb, s, flags=re.S)
+else:
+    m = re.search(r"^## 8\. Cost summary.*?$", s, re.M)
+    nxt = re.search(r"^## 9\. ", s[m.end():], re.M)
+    s = s[:m.end()] + "\n\nMeasured on this sandbox (16 cores), engine wall-clock as reported in the evidence files; add about 0.3 s per check for the no-op incremental build and 10-20 s after an edit of `/repo`. The thorough column is a snapshot kept under `/verif/evidence-thorough/`.\n\n" + tb + "\n\n" + s[m.end() + nxt.start():]
 open(f"{ROOT}/DESIGN.md", "w").write(s)
 print("DESIGN.md as-built blocks refreshed")
